@@ -129,3 +129,55 @@ pub fn search_lookup_func(tables: &Vec<SymTable>, rev: bool, name: &VariableName
             Some(x) => exists|i: int| #[trigger] hit(views(tables@), rev, *name, i) && x == table_lookup_func(views(tables@)[i], *name),
         },
 { unimplemented!() }
+
+// ---- the mutable path (contracts of SymTable::lookup_var_mut / emplace_var / emplace_func: proved in unit sym_table)
+pub uninterp spec fn sp_val_default() -> Val;      // Val::default()
+impl SymTable {
+    #[verifier::external_body]
+    pub fn lookup_var_mut(&mut self, name: &VariableName) -> (r: Result<&mut Val, SymTableError>)
+        ensures match table_lookup_var(old(self).view(), *name) {
+            Ok(v) => r is Ok && *r->Ok_0 == v && final(self).view() == old(self).view().insert(key(*name), SymTableEntry::Var(*final(r->Ok_0))),
+            Err(e) => r == Err::<&mut Val, SymTableError>(e) && final(self).view() == old(self).view(),
+        }
+    { unimplemented!() }
+    #[verifier::external_body]
+    pub fn emplace_var(&mut self, name: &VariableName) -> (r: Result<&mut Val, SymTableError>)
+        ensures old(self).view().contains_key(key(*name)) ==> r == Err::<&mut Val, SymTableError>(SymTableError::DuplicateSymbol(*name)) && final(self).view() == old(self).view(),
+            !old(self).view().contains_key(key(*name)) ==> r is Ok && *r->Ok_0 == sp_val_default()
+                && final(self).view() == old(self).view().insert(key(*name), SymTableEntry::Var(*final(r->Ok_0))),
+    { unimplemented!() }
+    #[verifier::external_body]
+    pub fn emplace_func(&mut self, name: &VariableName, func: Arc<FunctionData>) -> (r: Result<(), SymTableError>)
+        ensures old(self).view().contains_key(key(*name)) ==> r == Err::<(), SymTableError>(SymTableError::DuplicateSymbol(*name)) && final(self).view() == old(self).view(),
+            !old(self).view().contains_key(key(*name)) ==> r is Ok && final(self).view() == old(self).view().insert(key(*name), SymTableEntry::Func(func)),
+    { unimplemented!() }
+}
+/// `tables.iter_mut().rev().map(|t| t.lookup_var_mut(name)).find(stop_searching)`: as search_lookup_var, and the only
+/// table that can change is the one hit, at the name's entry, through the reference returned
+#[verifier::external_body]
+pub fn search_lookup_var_mut<'a>(tables: &'a mut Vec<SymTable>, rev: bool, name: &VariableName) -> (r: Option<Result<&'a mut Val, SymTableError>>)
+    ensures final(tables)@.len() == old(tables)@.len(),
+        match r {
+            None => nowhere(views(old(tables)@), *name) && views(final(tables)@) == views(old(tables)@),
+            Some(x) => exists|i: int| #[trigger] hit(views(old(tables)@), rev, *name, i)
+                && (match table_lookup_var(views(old(tables)@)[i], *name) {
+                        Ok(v) => x is Ok && *x->Ok_0 == v
+                            && views(final(tables)@) == views(old(tables)@).update(i, views(old(tables)@)[i].insert(key(*name), SymTableEntry::Var(*final(x->Ok_0)))),
+                        Err(e) => x == Err::<&mut Val, SymTableError>(e) && views(final(tables)@) == views(old(tables)@) }),
+        },
+{ unimplemented!() }
+/// a successful mutable lookup: the reference is to the variable in the innermost scope that knows the name, and writing
+/// through it changes exactly that entry
+pub open spec fn lookup_var_mut_matches(o: Seq<Scope>, f: Seq<Scope>, name: VariableName, r: Result<&mut Val, EnvironmentError>, fin: Val) -> bool {
+    (nowhere(o, name) && r == Err::<&mut Val, EnvironmentError>(EnvironmentError::SymTableError(SymTableError::NameNotFound(name))) && f == o)
+    || exists|i: int| #[trigger] is_innermost(o, name, i) && match table_lookup_var(o[i], name) {
+            Ok(v) => r is Ok && *r->Ok_0 == v && f == o.update(i, o[i].insert(key(name), SymTableEntry::Var(fin))),
+            Err(e) => r == Err::<&mut Val, EnvironmentError>(EnvironmentError::SymTableError(e)) && f == o,
+        }
+}
+/// `v.last_mut()` (slice method through Vec's DerefMut)
+#[verifier::external_body]
+pub fn vec_last_mut<T>(v: &mut Vec<T>) -> (r: Option<&mut T>)
+    ensures old(v)@.len() == 0 ==> r is None && final(v)@ == old(v)@,
+        old(v)@.len() > 0 ==> r is Some && *r->Some_0 == old(v)@.last() && final(v)@ == old(v)@.update(old(v)@.len() - 1, *final(r->Some_0)),
+{ unimplemented!() }
